@@ -263,11 +263,60 @@ def gen_recurring_case(seed: int, rnd: random.Random) -> SchedCase:
     return SchedCase(seed, executor, epoch, lines, specs, meta, zc.name)
 
 
+def gen_tight_case(seed: int, rnd: random.Random) -> SchedCase:
+    """directed scenario: an operation that makes an overdue job the head of the queue (creation of a job that is due
+    at once, re-enabling, removing the head in front of an overdue job while the loop is blocked) is followed directly,
+    without the loop running in between, by switching the scheduler off. Synchronous executor: a callable runs inside
+    the call that starts it."""
+    tzname, epoch = pick_epoch(rnd)
+    lines: list[str] = []
+    specs: dict[int, tuple] = {}
+
+    def emit(x: str, tight: bool = False) -> None:
+        lines.append(('op! ' if tight else 'op ') + x)
+    h = 0
+    for _ in range(rnd.randint(1, 3)):
+        pat = rnd.choice(['create_due', 'reenable', 'remove_head'])
+        if pat == 'create_due':
+            h += 1
+            emit(f'create {h} - (once {epoch}) - -')            # due at once (inside the tolerance)
+            emit('enable 0', tight=True)
+        elif pat == 'reenable':
+            emit('enable 0')
+            emit('yield')
+            for _ in range(rnd.randint(1, 2)):
+                h += 1
+                emit(f'create {h} - (once {epoch + rnd.randint(1, 6) * U}) - -')
+                emit('yield')
+            emit(f'advance {rnd.randint(8, 12) * U}')
+            emit('enable 1')
+            emit('enable 0', tight=True)
+        else:
+            a, b = h + 1, h + 2
+            h += 2
+            emit(f'create {a} - (once {epoch + 2 * U}) - -')
+            emit('yield')
+            emit(f'create {b} - (once {epoch + 4 * U}) - -')
+            emit('yield')
+            emit(f'advance {rnd.randint(8, 12) * U}')          # the loop is blocked: both are overdue now
+            emit(f'cancel {a}')
+            emit('enable 0', tight=True)
+        emit('yield')
+        emit(f'sleep {rnd.randint(1, 4) * U}')
+        emit('enable 1')
+        emit('yield')
+        epoch_shift = 0
+    meta = {'executor': 'sync', 'ops': len(lines), 'jobs': h, 'tz': tzname, 'scenario': 'tight'}
+    return SchedCase(seed, 'sync', epoch, lines, specs, meta, tzname)
+
+
 def gen_sched_case(seed: int, max_ops: int = 40, max_jobs: int = 6, *, failures: bool = True,
                    kinds=('once', 'countdown', 'at'), focus: str | None = None) -> SchedCase:
     rnd = random.Random(seed)
     if focus == 'C03':
         return gen_recurring_case(seed, rnd)
+    if focus in (None, 'C02', 'C10') and seed % 20 == 7:
+        return gen_tight_case(seed, rnd)
     if focus in (None, 'C08', 'C09', 'C02') and rnd.random() < 0.3:
         return gen_retime_case(seed, rnd)
     p_create, p_time, p_enable, p_cb = PROFILES.get(focus, PROFILES[None])
